@@ -188,11 +188,3 @@ package adjRIBOut
 //@   acquires 30
 //@   locks C25
 //@   guards C26
-
-// Property C11 (withdraw side): on an add-path session the path handed to the
-// clients for withdrawal is the path the lookup settled on (sentPath: the stored
-// path that was found, which carries the identifier it was announced with),
-// for the prefix asked for.
-//@ contract (*AdjRIBOut).removePath
-//@   props C11
-//@   call[C11] removePathFromClients args cpfx *bnet.Prefix, q *route.Path vars sentPath *route.Path requires cpfx == pfx && q == sentPath
